@@ -378,3 +378,7 @@ contract(GT + 'TestGenerator.write_script', props=['C12', 'C11'], params={}, sel
          spec_env=dict(PRIMS, script_holds_every_check=script_holds_every_check),
          ensures=[('one-check-per-stream-and-per-output-file-each-with-its-own-exclusions-written-to-the-script-only',
                    'script_holds_every_check(self)')], max_paths=100000)
+
+REGISTRY[GT + 'TestGenerator.write_script'].abstraction = "0..2 output files with symbolic names; test_def / HEADER / as_join_repr / os.path.split / FileType and the generator's helper methods are stubs that record their arguments; the text of the script is not modelled, only the sequence of test definitions written"
+
+REGISTRY[GT + 'TestGenerator.test_name'].abstraction = 'four concrete paths; the set of names already taken is an uninterpreted predicate; str(int) is an arbitrary string'
